@@ -762,18 +762,18 @@ def sentinel_table(est_kind, N=None):
             if srow is not None:
                 t[("standardized_moment", p)] = srow
     elif est_kind == "WeightedMean":
-        t["mean"] = {"n0": {NANC}, "n1": {X}, "n1w0": {NANC}, "const": {X}}
-        t["sum_weights"] = {"n0": {ZERO}, "n1": {"W"}}
+        t["mean"] = {"n0": {NANC}, "n1": {X}, "n1w0": {NANC}, "const": {X}, "w0": {NANC}}
+        t["sum_weights"] = {"n0": {ZERO}, "n1": {"W"}, "w0": {ZERO}}
     elif est_kind == "WeightedMeanWithError":
-        t["weighted_mean"] = {"n0": {NANC}, "n1": {X}, "n1w0": {NANC}, "const": {X}}
+        t["weighted_mean"] = {"n0": {NANC}, "n1": {X}, "n1w0": {NANC}, "const": {X}, "w0": {NANC}}
         t["unweighted_mean"] = mean_row
         t["sum_weights"] = {"n0": {ZERO}, "n1": {"W"}}
         t["sum_weights_sq"] = {"n0": {ZERO}, "n1": {"WW"}}
         t["effective_len"] = {"n0": {ZERO}}
         t["population_variance"] = var_row
         t["sample_variance"] = svar_row
-        t["variance_of_weighted_mean"] = {"n0": {NANC}, "n1": {NANC}, "n1w0": {NANC}}
-        t["error"] = {"n0": {NANC}, "n1": {NANC}, "n1w0": {NANC}}
+        t["variance_of_weighted_mean"] = {"n0": {NANC}, "n1": {NANC}, "n1w0": {NANC}, "w0": {NANC}}
+        t["error"] = {"n0": {NANC}, "n1": {NANC}, "n1w0": {NANC}, "w0": {NANC}}
     elif est_kind == "Covariance":
         t["mean_x"] = mean_row
         t["mean_y"] = {"n0": {NANC}, "n1": {"Y"}, "const": {"Y"}}
@@ -790,7 +790,7 @@ def sentinel_table(est_kind, N=None):
     return t
 
 
-def r_sentinel(ctx, db, est, kind, N=None, weighted=False, ctor_args=None, states=("n0", "n1", "n1w0", "const", "n2", "n3", "n4"),
+def r_sentinel(ctx, db, est, kind, N=None, weighted=False, ctor_args=None, states=("n0", "n1", "n1w0", "const", "n2", "n3", "n4", "w0"),
                only=None):
     table = sentinel_table(kind, N)
     leaf = count_leaf(ctx, db, est)
@@ -829,6 +829,15 @@ def r_sentinel(ctx, db, est, kind, N=None, weighted=False, ctor_args=None, state
                     if st == "const":
                         s = generalise_counts(m, s, leaf, {w[1] for w in xs[1:]} if weighted else ())
                     return s
+                if st == "w0":
+                    # several observations, all with weight zero: total weight (and sum of squares) 0
+                    c = Cell(m.sym_value(est.ty(), "s", None, None, 2), root="s")
+                    wl = weight_leaves(db, est)
+                    _set_leaves(c.v, "", wl, F.ZERO)
+                    for kk, vv in leaves(c.v):
+                        if is_float(vv) and not F.is_lit(vv):
+                            m.order.set_nan(vv, False)
+                    return c
                 k = int(st[1:])
                 if leaf is None:
                     raise Unsupported("no count leaf")
@@ -859,6 +868,20 @@ def r_sentinel(ctx, db, est, kind, N=None, weighted=False, ctor_args=None, state
             eval_accessor_in_state(ctx, db, est, ap, mk_state, args, "R-SENTINEL", key, exp,
                                    what="%s::%s%s in state %s" % (est.name, name, "(%s)" % args[0] if args else "()", st))
     return n_cells
+
+
+def _set_leaves(v, prefix, names, value):
+    if isinstance(v, (VStruct, VTuple)):
+        for i, x in enumerate(v.fields):
+            nm = v.names[i] if isinstance(v, VStruct) and v.names and i < len(v.names) else str(i)
+            path = "%s.%s" % (prefix, nm) if prefix else nm
+            if path in names and is_float(x):
+                v.fields[i] = value
+            else:
+                _set_leaves(x, path, names, value)
+    elif isinstance(v, VArray):
+        for i, x in enumerate(v.elems):
+            _set_leaves(x, "%s[%d]" % (prefix, i), names, value)
 
 
 def first_param(db, est, i):
